@@ -349,13 +349,13 @@ func C03(ps *spec.Plan, t *Trace, final *spec.PlanView) []ev.Violation {
 					lastOK := li.Out == plug.OK
 					switch {
 					case !lastOK && st != spec.Failed && exhausted(t, b.Seqs[si].Actions[lastRun]):
-						add("seq-status", "failed-run-not-failed", "sequence %s: last invocation of %s ended %q but the sequence is %s", seqAddr(bi, si), li.Tag, li.Out, stName(st))
+						add("seq-status", "failed-run-not-failed", "sequence %s: last invocation of %s ended %q but the sequence is %s", seqAddr(bi, si), li.Tag, li.Out, StName(st))
 					case lastOK && lastRun == len(b.Seqs[si].Actions)-1 && st != spec.Completed:
-						add("seq-status", "ok-run-not-completed", "sequence %s: every action succeeded but the sequence is %s", seqAddr(bi, si), stName(st))
+						add("seq-status", "ok-run-not-completed", "sequence %s: every action succeeded but the sequence is %s", seqAddr(bi, si), StName(st))
 					}
 				}
 			} else if st == spec.Failed || st == spec.Completed {
-				add("seq-status", "not-run-terminal", "sequence %s never ran but is %s", seqAddr(bi, si), stName(st))
+				add("seq-status", "not-run-terminal", "sequence %s never ran but is %s", seqAddr(bi, si), StName(st))
 			}
 		}
 		T, C := b.Tol, b.EffConc()
@@ -403,7 +403,7 @@ func C03(ps *spec.Plan, t *Trace, final *spec.PlanView) []ev.Violation {
 				}
 			}
 			if entered {
-				add("after-failed-block", "status", "block %d failed, yet block %d is %s", firstFailed, bi, stName(bst))
+				add("after-failed-block", "status", "block %d failed, yet block %d is %s", firstFailed, bi, StName(bst))
 			}
 			continue
 		}
@@ -413,7 +413,7 @@ func C03(ps *spec.Plan, t *Trace, final *spec.PlanView) []ev.Violation {
 		bypassed := b.Bypass != nil && final.Status(ba+".bypass") == spec.Completed
 		if bypassed {
 			if bst != spec.Completed {
-				add("block-status", "bypassed", "block %d was bypassed but is %s", bi, stName(bst))
+				add("block-status", "bypassed", "block %d was bypassed but is %s", bi, StName(bst))
 			}
 			continue
 		}
@@ -427,16 +427,16 @@ func C03(ps *spec.Plan, t *Trace, final *spec.PlanView) []ev.Violation {
 		}
 		switch {
 		case shouldFail && bst != spec.Failed:
-			add("block-status", "should-fail", "block %d: %d failed sequences (tolerance %d), failed groups=%v, but block is %s", bi, F, T, groupAnyFailed(final, ba), stName(bst))
+			add("block-status", "should-fail", "block %d: %d failed sequences (tolerance %d), failed groups=%v, but block is %s", bi, F, T, groupAnyFailed(final, ba), StName(bst))
 		case !shouldFail && bst != spec.Completed:
-			add("block-status", "should-complete", "block %d: %d failed sequences within tolerance %d and no failed check, but block is %s", bi, F, T, stName(bst))
+			add("block-status", "should-complete", "block %d: %d failed sequences within tolerance %d and no failed check, but block is %s", bi, F, T, StName(bst))
 		}
 		if bst == spec.Failed {
 			firstFailed = bi
 		}
 	}
 	if firstFailed >= 0 && final.Status("P") != spec.Failed {
-		add("plan-status", "", "block %d is Failed but the plan is %s", firstFailed, stName(final.Status("P")))
+		add("plan-status", "", "block %d is Failed but the plan is %s", firstFailed, StName(final.Status("P")))
 	}
 	return out
 }
@@ -463,7 +463,7 @@ func groupAnyFailed(v *spec.PlanView, scope string) bool {
 	return false
 }
 
-func stName(s int) string {
+func StName(s int) string {
 	switch s {
 	case spec.NotStarted:
 		return "NotStarted"
@@ -492,7 +492,7 @@ func Consistency(prop string, ps *spec.Plan, t *Trace, p *spec.PlanView, withTok
 	add := func(rule, disc, f string, a ...any) { out = append(out, ev.V(prop, rule, disc, f, a...)) }
 	pst := p.Status("P")
 	if pst != spec.Completed && pst != spec.Failed {
-		add("not-terminal", stName(pst), "plan status at Wait is %s", stName(pst))
+		add("not-terminal", StName(pst), "plan status at Wait is %s", StName(pst))
 	}
 	for _, o := range p.Objs {
 		if o.Status == spec.Running {
@@ -509,7 +509,7 @@ func Consistency(prop string, ps *spec.Plan, t *Trace, p *spec.PlanView, withTok
 	if pst == spec.Completed && !bypassed {
 		for bi := range ps.Blocks {
 			if st := p.Status(fmt.Sprintf("B%d", bi)); st != spec.Completed {
-				add("completed-plan", "block-"+stName(st), "plan Completed but block %d is %s", bi, stName(st))
+				add("completed-plan", "block-"+StName(st), "plan Completed but block %d is %s", bi, StName(st))
 			}
 		}
 		for _, k := range []string{"pre", "cont", "post", "deferred"} {
@@ -527,7 +527,7 @@ func Consistency(prop string, ps *spec.Plan, t *Trace, p *spec.PlanView, withTok
 			case spec.Completed:
 				for _, a := range s.Actions {
 					if st := p.Status(a.Tag); st != spec.Completed {
-						add("completed-seq", stName(st), "sequence %s Completed but action %s is %s", seqAddr(bi, si), a.Tag, stName(st))
+						add("completed-seq", StName(st), "sequence %s Completed but action %s is %s", seqAddr(bi, si), a.Tag, StName(st))
 					}
 				}
 			case spec.Failed:
@@ -544,7 +544,7 @@ func Consistency(prop string, ps *spec.Plan, t *Trace, p *spec.PlanView, withTok
 				} else {
 					for ai := 0; ai < failedAt; ai++ {
 						if st := p.Status(s.Actions[ai].Tag); st != spec.Completed {
-							add("failed-seq", "before-"+stName(st), "sequence %s: action %s before the failed one is %s", seqAddr(bi, si), s.Actions[ai].Tag, stName(st))
+							add("failed-seq", "before-"+StName(st), "sequence %s: action %s before the failed one is %s", seqAddr(bi, si), s.Actions[ai].Tag, StName(st))
 						}
 					}
 					for ai := failedAt + 1; ai < len(s.Actions); ai++ {
@@ -553,7 +553,7 @@ func Consistency(prop string, ps *spec.Plan, t *Trace, p *spec.PlanView, withTok
 							continue
 						}
 						if o.Status != spec.NotStarted || len(o.Attempts) != 0 || (t != nil && t.Began(s.Actions[ai].Tag)) {
-							add("failed-seq", "after-touched", "sequence %s: action %s after the failed one is %s with %d attempts (invoked: %v)", seqAddr(bi, si), o.Addr, stName(o.Status), len(o.Attempts), t != nil && t.Began(s.Actions[ai].Tag))
+							add("failed-seq", "after-touched", "sequence %s: action %s after the failed one is %s with %d attempts (invoked: %v)", seqAddr(bi, si), o.Addr, StName(o.Status), len(o.Attempts), t != nil && t.Began(s.Actions[ai].Tag))
 						}
 					}
 				}
@@ -601,7 +601,7 @@ func Consistency(prop string, ps *spec.Plan, t *Trace, p *spec.PlanView, withTok
 	// reason
 	reason := p.Reason
 	if (pst == spec.Completed) != (reason == 0) {
-		add("reason", fmt.Sprintf("status=%s,reason=%s", stName(pst), reasonName[reason]), "plan is %s with reason %s", stName(pst), reasonName[reason])
+		add("reason", fmt.Sprintf("status=%s,reason=%s", StName(pst), reasonName[reason]), "plan is %s with reason %s", StName(pst), reasonName[reason])
 	} else if pst == spec.Failed {
 		R := map[int]bool{}
 		if p.Status("P.pre") == spec.Failed {
@@ -631,13 +631,13 @@ func Consistency(prop string, ps *spec.Plan, t *Trace, p *spec.PlanView, withTok
 			blamedStatus := ""
 			switch reason {
 			case 100:
-				blamedStatus = stName(p.Status("P.pre"))
+				blamedStatus = StName(p.Status("P.pre"))
 			case 400:
-				blamedStatus = stName(p.Status("P.cont"))
+				blamedStatus = StName(p.Status("P.cont"))
 			case 300:
-				blamedStatus = stName(p.Status("P.post"))
+				blamedStatus = StName(p.Status("P.post"))
 			case 450:
-				blamedStatus = stName(p.Status("P.deferred"))
+				blamedStatus = StName(p.Status("P.deferred"))
 			}
 			add("reason", fmt.Sprintf("blamed=%s(%s),failed=%s", reasonName[reason], blamedStatus, strings.Join(names, "+")), "plan Failed with reason %s, but the stages that failed are %v", reasonName[reason], names)
 		}
@@ -668,7 +668,7 @@ func C04(ps *spec.Plan, t *Trace, p0, p1 *spec.PlanView, graceSeq int) []ev.Viol
 	}
 	for _, w := range t.Writes {
 		if w.Seq > t.WaitSeq {
-			add("write-after-wait", w.Obj, "%s %s (%s) was written with status %s after Wait returned", w.Obj, w.Tag, w.ObjID, stName(w.Status))
+			add("write-after-wait", w.Obj, "%s %s (%s) was written with status %s after Wait returned", w.Obj, w.Tag, w.ObjID, StName(w.Status))
 			break
 		}
 	}
@@ -788,7 +788,7 @@ func C05(ps *spec.Plan, t *Trace, final *spec.PlanView) []ev.Violation {
 				wantStatus = spec.Completed
 			}
 			if o.Status != wantStatus {
-				add("action-status", "", "action %s: last call ended %q but action is %s", a.Tag, lastInv.Out, stName(o.Status))
+				add("action-status", "", "action %s: last call ended %q but action is %s", a.Tag, lastInv.Out, StName(o.Status))
 			}
 		}
 	}
@@ -910,7 +910,7 @@ func C06(ps *spec.Plan, t *Trace, final *spec.PlanView) []ev.Violation {
 					break
 				}
 				if st != spec.Completed {
-					add("bypass-status", lvl, "every bypass check of %s succeeded but it ended %s", sc.name, stName(st))
+					add("bypass-status", lvl, "every bypass check of %s succeeded but it ended %s", sc.name, StName(st))
 				}
 				continue
 			case "fail":
@@ -943,7 +943,7 @@ func C06(ps *spec.Plan, t *Trace, final *spec.PlanView) []ev.Violation {
 				break
 			}
 			if st != spec.Failed {
-				add("gate-"+gateFail+"-status", lvl, "%s-check of %s failed in its initial run but the scope ended %s", gateFail, sc.name, stName(st))
+				add("gate-"+gateFail+"-status", lvl, "%s-check of %s failed in its initial run but the scope ended %s", gateFail, sc.name, StName(st))
 			} else if sc.planLevel {
 				if final.Reason != 100 && final.Reason != 400 {
 					add("gate-reason", gateFail+","+reasonName[final.Reason], "plan %s-check failed in its initial run but the reason is %s", gateFail, reasonName[final.Reason])
@@ -1073,7 +1073,7 @@ func C07(ps *spec.Plan, t *Trace, final *spec.PlanView) C07Result {
 	if at := contFailedAt(ps.Cont); at >= 0 {
 		res.Zones["plan:"+zone(at, func(i Inv) bool { return i.Addr.Kind == "seq" }, nil)]++
 		if final.Status("P") != spec.Failed {
-			add("cont-failure-lost", "P", "a run of the plan's continuous checks failed (seq %d) but the plan ended %s", at, stName(final.Status("P")))
+			add("cont-failure-lost", "P", "a run of the plan's continuous checks failed (seq %d) but the plan ended %s", at, StName(final.Status("P")))
 		} else {
 			others := false
 			for _, k := range []string{"pre", "post", "deferred"} {
@@ -1108,10 +1108,10 @@ func C07(ps *spec.Plan, t *Trace, final *spec.PlanView) C07Result {
 		if at := contFailedAt(b.Cont); at >= 0 {
 			res.Zones["block:"+zone(at, func(i Inv) bool { return i.Addr.Kind == "seq" && i.Addr.Block == bi }, nil)]++
 			if st := final.Status(fmt.Sprintf("B%d", bi)); st != spec.Failed {
-				add("cont-failure-lost", "B", "a run of block %d's continuous checks failed (seq %d) but the block ended %s", bi, at, stName(st))
+				add("cont-failure-lost", "B", "a run of block %d's continuous checks failed (seq %d) but the block ended %s", bi, at, StName(st))
 			}
 			if final.Status("P") != spec.Failed {
-				add("cont-failure-lost", "B-plan", "a run of block %d's continuous checks failed but the plan ended %s", bi, stName(final.Status("P")))
+				add("cont-failure-lost", "B-plan", "a run of block %d's continuous checks failed but the plan ended %s", bi, StName(final.Status("P")))
 			}
 		}
 	}
@@ -1139,13 +1139,13 @@ func C07(ps *spec.Plan, t *Trace, final *spec.PlanView) C07Result {
 			case (!entered || bypassed) && runs > 0:
 				add("deferred-ran-unentered", scope[:1], "deferred check %s ran although %s was %s", a.Tag, scope, map[bool]string{true: "bypassed", false: "never entered"}[bypassed])
 			case entered && !bypassed && runs == 0:
-				add("deferred-not-run", scope[:1]+","+stName(final.Status(scope)), "%s was entered (ended %s) but its deferred check %s never ran", scope, stName(final.Status(scope)), a.Tag)
+				add("deferred-not-run", scope[:1]+","+StName(final.Status(scope)), "%s was entered (ended %s) but its deferred check %s never ran", scope, StName(final.Status(scope)), a.Tag)
 			case runs > 1:
 				add("deferred-ran-twice", scope[:1], "deferred check %s ran %d times", a.Tag, runs)
 			}
 		}
 		if entered && !bypassed && groupOutcome(t, c, true) == "fail" && final.Status(scope) != spec.Failed {
-			add("deferred-failure-lost", scope[:1], "a deferred check of %s failed but the scope ended %s", scope, stName(final.Status(scope)))
+			add("deferred-failure-lost", scope[:1], "a deferred check of %s failed but the scope ended %s", scope, StName(final.Status(scope)))
 		}
 	}
 	planEntered := len(t.Invs) > 0 || final.Status("P") != spec.NotStarted
@@ -1252,12 +1252,12 @@ func C08(ps *spec.Plan, t *Trace, p0 *spec.PlanView) []ev.Violation {
 			w, ok := last[o.ID]
 			if !ok {
 				if o.Status != spec.NotStarted {
-					add("terminal-not-durable", o.Kind+",never-written", "%s %s is %s in the plan Wait returned but was never written before Wait returned", o.Kind, o.Addr, stName(o.Status))
+					add("terminal-not-durable", o.Kind+",never-written", "%s %s is %s in the plan Wait returned but was never written before Wait returned", o.Kind, o.Addr, StName(o.Status))
 				}
 				continue
 			}
 			if w.Status != o.Status {
-				add("terminal-not-durable", o.Kind, "%s %s: last write before Wait returned has status %s, Wait returned %s", o.Kind, o.Addr, stName(w.Status), stName(o.Status))
+				add("terminal-not-durable", o.Kind, "%s %s: last write before Wait returned has status %s, Wait returned %s", o.Kind, o.Addr, StName(w.Status), StName(o.Status))
 			}
 			if o.Kind == "action" && w.NAtt != len(o.Attempts) {
 				add("terminal-not-durable", "attempts", "action %s: last write before Wait has %d attempts, Wait returned %d", o.Addr, w.NAtt, len(o.Attempts))
@@ -1271,7 +1271,7 @@ func C08(ps *spec.Plan, t *Trace, p0 *spec.PlanView) []ev.Violation {
 			}
 		}
 		if !terminalWritten {
-			add("terminal-not-durable", "plan", "Wait returned (plan %s) before any terminal plan write", stName(pst))
+			add("terminal-not-durable", "plan", "Wait returned (plan %s) before any terminal plan write", StName(pst))
 		}
 	}
 	return out
